@@ -1,11 +1,13 @@
 #!/bin/bash
-# Development aid: re-run every seeded change against the quick check of its property (or the check
-# named in meta.json) in a private mount namespace; prints one line per change.
+# Development aid: re-run every seeded change against the quick check named in its meta.json
+# (detected_by.check), each in a private mount namespace on copies of /repo and /verif; prints one
+# line per change. usage: tools/seeded_regress.sh [parallel jobs, default 3]
 cd /verif
-for d in seeded/*/; do
-  n=$(basename $d)
+jobs=${1:-3}
+one() {
+  d=$1; n=$(basename $d)
   chk=$(python3 -c "
-import json,sys
+import json
 m=json.load(open('$d/meta.json'))
 d=m.get('detected_by',{})
 c=d.get('check') or (sorted(d.get('checks',{}).keys())[0] if d.get('checks') else m['property'])
@@ -13,4 +15,6 @@ c=c.replace('./check ','').split()[0]
 print(c if c.startswith('C') else m['property'])")
   out=$(tools/mutant_ns.sh $d/patch.diff $chk 2>&1 | tail -1)
   echo "$n -> $chk $out"
-done
+}
+export -f one
+ls -d seeded/*/ | xargs -P $jobs -I{} bash -c 'one {}'
